@@ -11,6 +11,7 @@ import (
 	"time"
 
 	"github.com/vx-labs/wasp/v4/subscriptions"
+	"github.com/vx-labs/wasp/v4/wasp/api"
 
 	"wv/fw"
 	"wv/kit"
@@ -128,7 +129,7 @@ func c01Class(f, topic string, got, want []string) string {
 }
 
 func runC01(c *fw.Ctx) {
-	c.Rule = "(1) trie level: every valid filter of <=4 levels over {a,b,c,+,#,''} ('#' last only) alone x every topic of <=4 levels over {a,b,c,''} - complete; filter sets of size 2-4 (all pairs in the thorough tier, seeded sample in quick) inserted in several orders and through subscribe/unsubscribe/re-subscribe histories ending in the same active set, with malformed filters ('#' not last) as bystanders; oracle = MQTT 3.1.1 4.7 matcher on level arrays, results compared as multisets; Iterate must list exactly the active set. (2) replicated index: seeded Create/Delete histories over 3 sessions x filters, ByPattern(topic) compared with the model after every step, then at a second replica that joins through the full-state exchange and at the first after the echoed exchange and a second delivery of every broadcast. (2b) lookups from 4 goroutines while 4 others subscribe/unsubscribe sibling filters: untouched subscriptions are reported exactly once by every lookup. (3) end to end: broker node over pipes, 3-5 QoS 0 subscriber sessions with generated filter sets (incl. unsubscribe/re-subscribe histories), a QoS 1 publisher sending uniquely tagged payloads (plus up to three RETAIN-flagged zero-length ones) and waiting for each PUBACK, sentinel barrier; per session the multiset of received (topic,tag) must be one copy per matching active filter. distinct = (filter set, order/history, topic); non-trivial = the set has at least one matching and one non-matching (filter,topic) pair"
+	c.Rule = "(1) trie level: every valid filter of <=4 levels over {a,b,c,+,#,''} ('#' last only) alone x every topic of <=4 levels over {a,b,c,''} - complete; filter sets of size 2-4 (all pairs in the thorough tier, seeded sample in quick) inserted in several orders and through subscribe/unsubscribe/re-subscribe histories ending in the same active set, with malformed filters ('#' not last) as bystanders; oracle = MQTT 3.1.1 4.7 matcher on level arrays, results compared as multisets; Iterate must list exactly the active set. (2) replicated index: seeded Create/Delete histories over 3 sessions x filters, ByPattern(topic) compared with the model after every step, then at a second replica that joins through the full-state exchange and at the first after the echoed exchange and a second delivery of every broadcast. (2b) lookups from 4 goroutines while 4 others subscribe/unsubscribe sibling filters: untouched subscriptions are reported exactly once by every lookup. (3) end to end: broker node over pipes (odd scenarios: two nodes, the publisher on the other one, all subscription changes gossiped together at the end; stale subscriptions of sessions that do not exist are injected as gossip), 3-5 QoS 0 subscriber sessions with generated filter sets (incl. unsubscribe/re-subscribe histories), a QoS 1 publisher sending uniquely tagged payloads (plus up to three RETAIN-flagged zero-length ones) and waiting for each PUBACK, sentinel barrier; per session the multiset of received (topic,tag) must be one copy per matching active filter. distinct = (filter set, order/history, topic); non-trivial = the set has at least one matching and one non-matching (filter,topic) pair"
 	c.Assume("'$'-prefixed topics are outside the alphabets; the empty string is neither a topic nor a filter")
 	workers := runtime.NumCPU()
 	fsyms := []string{"a", "b", "c", "+", "#", ""}
@@ -534,6 +535,28 @@ func c01Scenario(c *fw.Ctx, s int, filters, topics []string) {
 		return
 	}
 	fw.LogCase("C01 e2e scenario %d", s)
+	// odd scenarios: a second node; the publisher connects there, so every message has to be forwarded
+	// on the strength of what gossip told that node about the subscriptions (all subscription changes of
+	// the scenario are gossiped together, after the last one)
+	pubNode := n
+	if s%2 == 1 {
+		n2, err := cl.AddNode(kit.NodeOpts{ID: 2})
+		if err != nil {
+			c.Inconclusive("cannot start node: " + err.Error())
+			return
+		}
+		pubNode = n2
+	}
+	// stale gossip: subscriptions attributed to this node whose sessions do not exist here (any more);
+	// they are recipients of nothing, and must not stand in the way of the real ones
+	for k, f := range []string{"#", "+", "a/#", "a/+", "+/b", "b", "a"} {
+		if (s+k)%2 == 0 {
+			continue
+		}
+		n.State.Distributor().NotifyMsg(kit.EncodeEvent(&api.StateBroadcastEvent{Subscriptions: []*api.Subscription{{
+			SessionID: fmt.Sprintf("ghost-%d", k), Pattern: []byte("_default/" + f), Peer: 1, QoS: int32(k % 3), LastAdded: time.Now().UnixNano()}}}))
+		c.Observe("e2e_stale_subscriptions_injected", 1)
+	}
 	nSubs := 3 + rg.Intn(3)
 	type subr struct {
 		cl     *kit.Client
@@ -590,7 +613,8 @@ func c01Scenario(c *fw.Ctx, s int, filters, topics []string) {
 		}
 		subs = append(subs, su)
 	}
-	pub, err := n.MustConnect(kit.ConnectOpts{ClientID: fmt.Sprintf("pub%d", s), KeepAlive: 120, Clean: true})
+	cl.Quiesce() // gossip barrier
+	pub, err := pubNode.MustConnect(kit.ConnectOpts{ClientID: fmt.Sprintf("pub%d", s), KeepAlive: 120, Clean: true})
 	if err != nil {
 		c.Inconclusive(fmt.Sprintf("scenario %d: publisher connect: %v", s, err))
 		return
